@@ -1,7 +1,7 @@
 """C05 - concatenation keeps each operand's per-character styles; no bleed at the seam."""
 from .. import obs as O
 from .common import (Contract, ansi_values, history, run_cases, tier_sizes, safe_obs, is_ansi, is_plain_str,
-                     render_failures)
+                     render_failures, GROUP_CODES)
 
 PROP = 'C05'
 RULE = ('case = one a + b, a += b or join(x1..xn) on reachable operands (AnsiString/AnsiStr/str; equal, '
@@ -12,7 +12,7 @@ RULE = ('case = one a + b, a += b or join(x1..xn) on reachable operands (AnsiStr
         'sides styled at the seam; distinct = distinct operand observations.')
 ASSUMPTIONS = ['precedence-equivalence (DESIGN 2.2)', 'plain-str operands containing ESC are grey']
 MIN_EVAL = 400
-CASES = {'quick': 60, 'thorough': 1500}
+CASES = {'quick': 360, 'thorough': 2250}
 WEIGHTS = {'apply': 10, 'add': 12, 'iadd': 8, 'join': 6, 'pad': 5, 'getitem': 5, 'remove': 4, 'query': 0.1,
            'find_settings': 0.1, 'settings_at': 0.1, 'copy': 2.5}
 
@@ -155,6 +155,81 @@ def split_rejoin_probe(ctx, mon, v, rng):
             ctx.nontriv(('sr', o.key()))
 
 
+def seam_workshop(ctx, mon, rng, L):
+    """equal / reordered / prefix seams built on purpose: the left operand is a slice whose settings stop in an
+    order different from the order they take effect in, the right operand starts with equal-valued settings in
+    some permutation"""
+    groups = rng.sample(sorted(GROUP_CODES), rng.choice([1, 1, 2]))
+    pool = []
+    for g in groups:
+        ap, cl = GROUP_CODES[g]
+        pool += ap + [cl]
+    codes = [rng.choice(pool) for _ in range(rng.choice([2, 2, 3]))]
+    with mon.quiet():
+        a = L.AnsiString('abcdef')
+        for c in codes:
+            a.apply_formatting(c, rng.choice([0, 0, 1]), rng.choice([2, 3, 4, 5, 6]), topmost=rng.random() < 0.7)
+        k = rng.choice([2, 3, 4, 5])
+        left = a[0:k] if rng.random() < 0.8 else a
+        if rng.random() < 0.3:
+            left = L.AnsiStr(left)
+        perm = list(codes)
+        rng.shuffle(perm)
+        perm = perm[:rng.choice([len(perm), len(perm), max(1, len(perm) - 1)])]
+        right = L.AnsiString('xyz')
+        for c in perm:
+            right.apply_formatting(c, 0, rng.choice([1, 2, 3]), topmost=rng.random() < 0.8)
+        if rng.random() < 0.3:
+            right = L.AnsiStr(right)
+    ctx.sig('seam-workshop')
+    try:
+        r = rng.random()
+        if r < 0.5:
+            left + right
+        elif r < 0.75 and isinstance(left, L.AnsiString):
+            left += right
+        else:
+            (L.AnsiString if rng.random() < 0.5 else L.AnsiStr).join(left, right, rng.choice(['', 'q', left]))
+    except Exception:
+        pass
+
+
+def self_insertion(ctx, mon, rng, L):
+    """a value combined with itself repeatedly (a + a, replace('', a), slices of the result re-joined): the same
+    setting objects end up in both operands"""
+    g = rng.choice(sorted(GROUP_CODES))
+    ap, cl = GROUP_CODES[g]
+    with mon.quiet():
+        s = L.AnsiString(rng.choice(['ab', 'baa', 'aab', 'abab']))
+        for _ in range(rng.choice([1, 2, 3])):
+            s.apply_formatting(rng.choice(ap + [cl]), rng.choice([0, 0, 1]), rng.choice([None, 1, 2, 3]),
+                               topmost=rng.random() < 0.7)
+        if rng.random() < 0.5:
+            s.assign_str(s.base_str + rng.choice(['b', 'ab', 'bab']))
+    ctx.sig('self-insertion')
+    x = s
+    try:
+        for _ in range(rng.choice([1, 2, 3])):
+            if len(x.base_str) > 60:
+                break
+            r = rng.random()
+            if r < 0.3:
+                x = x + x
+            elif r < 0.5:
+                x = x.replace('', s, rng.choice([-1, 2, 3]))
+            elif r < 0.65:
+                x = x.replace(rng.choice(x.base_str or 'a'), s)
+            elif r < 0.85:
+                k = rng.randint(0, len(x.base_str))
+                x = x[:k] + x[k:]
+            else:
+                x = type(x).join(x, s, x)
+        k = rng.randint(0, len(x.base_str))
+        x[:k] + s + x[k:]
+    except Exception:
+        pass
+
+
 def drive(ctx, mon, tier, only_case=None):
     L = ctx.L
     sz = tier_sizes(tier)
@@ -175,6 +250,10 @@ def drive(ctx, mon, tier, only_case=None):
                         a + b
                     except Exception:
                         pass
+        for _ in range(4):
+            seam_workshop(ctx, mon, rng, L)
+        for _ in range(2):
+            self_insertion(ctx, mon, rng, L)
         if len(tail) >= 2 and rng.random() < 0.5:
             try:
                 cls = L.AnsiString if rng.random() < 0.6 else L.AnsiStr
